@@ -17,14 +17,17 @@ CLAUSES = {
     "C07.util.tiled.balance": 1000, "C07.util.sus.floorceil": 400, "C07.util.outcross.localopt": 1000,
 }
 HOOKS_REQUIRED = ["tiled_choice<-configuration", "stochastic_universal_sampling<-configuration", "outcross_shuffle<-configuration",
-                  "plug-in optimiser called by protocol"]
+                  "plug-in optimiser called by protocol", "constrained front mixing feasible and infeasible points",
+                  "cross-level truncation with nparent >= 3 and selfing allowed"]
 RULE = ("three seeded families.  cfg: the eight sampled configuration classes built directly from hostile decisions (subsets whose size "
         "divides / does not divide / exceeds the number of slots, repeated members; contribution vectors with zeros, one-hot, equal, "
         "1e-9..1 magnitudes; integer/binary counts with zeros, totals below/at/above the slot count; candidate-cross maps with and without "
         "selfing rows), ncross 1-12, nparent 1-4, scalar and array nmating/nprogeny, rng = Generator | RandomState | library global | "
         "crafted PCG64 states whose first draw is 0.0 or the largest double below 1; every configuration is also re-sampled.  "
         "sel: all concrete SelectionProtocol classes found at run time (57), each with an explicit optimiser (harness exact / prescribed-"
-        "decision / front plug-in, the repo's sorting optimiser, or a GA with ngen<=15, pop<=24), populations with shuffled names and "
+        "decision / front / deterministic candidate-list plug-in, the repo's sorting optimiser, or a GA with ngen<=15, pop<=24), "
+        "1-2 inequality and/or 1 equality constraint (harness transformation making 30-70 % of all decisions infeasible) in half of the "
+        "multi-objective runs of every encoding, cross-level protocols with nparent 1-4 x unique_parents on/off, populations with shuffled names and "
         "ungrouped families, gmat = the pgmat object | an equal but distinct phased object | unphased counts, 1-3 traits, ties and duplicated individuals, 1-2 objectives, "
         "objective weights of mixed sign and non-unit magnitude whenever there are 2 objectives (all encodings), "
         "ndset weights of both signs with four harness transformations or the library default.  equi: subset-encoded protocols run on a "
@@ -46,6 +49,9 @@ ASSUME = ["all inputs of one select() call list the taxa in the same order (the 
           "coancestry matrix, whose diagonal receives a random jitter (ties there are broken by the generator, not by the inputs)",
           "the tighter floor/ceil reading of 'within one of the proportional share' (DESIGN) is used, with the C17 allowance when the share "
           "is within 1e-9 of an integer and the library's float arithmetic may round either way",
+          "C07.mo is judged on the whole returned front (feasible and infeasible members alike): the declared preference is "
+          "ndset_wt*ndset_trans(soln_obj), nothing in it refers to constraint violations",
+          "cross-level truncation ranks every row of the candidate-cross map, whether or not the protocol's decision space lists it",
           "C07.mo accepts any maximiser of ndset_wt*ndset_trans(front) (ties), recomputed by calling the declared function on the returned front"]
 TOL = 1e-9
 
@@ -526,14 +532,19 @@ def make_chooser(g, enc, kind, k, decisions):
             X = R.exact_subset(prob, info)
             decisions.append(("exact/" + info["method"], X))
             return X
-        if kind == "front":
-            cand = [random_decision(prob)[1] for _ in range(int(g.integers(1, 9)))]
+        if kind in ("front", "list"):
+            cand = [random_decision(prob)[1] for _ in range(int(g.integers(1, 9)) if kind == "front" else int(g.integers(2, 11)))]
             if g.random() < 0.3:
                 cand.append(cand[0].copy())           # duplicate member -> tie in every preference score
-            F = [numpy.asarray(prob.evalfn(x)[0], dtype=float) for x in cand]
-            keep = R.nondominated(F)
+            ev = [prob.evalfn(x) for x in cand]
+            F = [numpy.asarray(e[0], dtype=float) for e in ev]
+            # "front": objective-non-dominated members in the order generated (feasible and infeasible members stay mixed);
+            # "list": the deterministic candidate list as it is (any order of feasible / infeasible / dominated members)
+            keep = R.nondominated(F) if kind == "front" else list(range(len(cand)))
             X = numpy.stack([cand[i] for i in keep])
-            decisions.append(("front of %d" % len(keep), X))
+            cv = [float(numpy.sum(ev[i][1])) + float(numpy.sum(ev[i][2])) for i in keep]
+            info["nfeasible"] = sum(1 for v in cv if v <= 0.0); info["npoints"] = len(keep)
+            decisions.append(("%s of %d" % (kind, len(keep)), X))
             return X
         dcls, x = random_decision(prob)
         decisions.append((dcls, x))
@@ -565,6 +576,8 @@ def case_sel(ctx, c):
     name, cls, enc, mate, fam = P[c % len(P)]
     twoway = fam in ("UsefulnessCriterion", "ExpectedMaximumBreedingValue")
     nparent = 2 if twoway else int(g.choice([1, 2, 2, 2, 3, 4]))      # the two-way variance / mating factories need two parents
+    if mate and not twoway:
+        nparent = int(g.choice([1, 2, 3, 4]))                         # cross-level protocols: every cross arity equally often
     ncross = int(g.integers(1, 13)) if g.random() < 0.25 else int(g.integers(1, 6))
     if mate:
         n = int(g.integers(max(2, nparent + 1), 8))
@@ -594,7 +607,7 @@ def case_sel(ctx, c):
         if ranked:
             kinds = ["exact"] * 5 + ["sorting"] * 4 + ["ga"]
     else:
-        kinds = ["front"] * 5 + ["ga"]
+        kinds = ["front"] * 3 + ["list"] * 2 + ["ga"]
     kind = str(g.choice(kinds))
     if kind == "sorting":
         from pybrops.opt.algo.SortingSubsetOptimizationAlgorithm import SortingSubsetOptimizationAlgorithm
@@ -617,17 +630,26 @@ def case_sel(ctx, c):
               ndset_wt=ndwt, soalgo=(algo if nobj == 1 else idle), moalgo=(algo if nobj > 1 else idle))
     if ndname != "library default":
         pk["ndset_trans"] = R.NDTRANS[ndname]; pk["ndset_trans_kwargs"] = {}
+    # constraints: every multi-objective family half of the time, single-objective runs whose optimiser does not rank
+    ncons = (0, 0)
+    if (nobj > 1 and g.random() < 0.5) or (nobj == 1 and kind in ("random", "prescribed") and g.random() < 0.25):
+        ncons = [(1, 0), (2, 0), (1, 1), (0, 1)][int(g.integers(4))]
+        cseed = int(g.integers(2 ** 31)); level = float(g.choice([0.3, 0.5, 0.7]))
+        if ncons[0]:
+            pk.update(nineqcv=ncons[0], ineqcv_wt=g.choice([1.0, 2.0, 0.5], ncons[0]), ineqcv_trans=R.ConsTrans(ncons[0], cseed, level))
+        if ncons[1]:
+            pk.update(neqcv=ncons[1], eqcv_wt=g.choice([1.0, 3.0], ncons[1]), eqcv_trans=R.ConsTrans(ncons[1], cseed + 3, level, equality=True))
     seed = int(g.integers(2 ** 31))
     from pybrops.core.random import prng
     prng.seed(seed); numpy.random.seed(seed)
     coords = [c, "sel"]
     optcls = {"exact": "exact plug-in", "sorting": "repo sorting optimiser", "random": "arbitrary feasible plug-in", "prescribed": "prescribed decision",
-              "front": "front plug-in", "ga": "short GA"}[kind]
+              "front": "front plug-in", "list": "candidate-list plug-in", "ga": "short GA"}[kind]
     ctx.case("sel:%s/%s/%s" % (name, optcls, "2 objectives" if nobj > 1 else "1 objective"), name, A["mat"], A["raw"], A["u"], ncross, nparent,
              seed, kind, trivial=(k < 2 and n < 3))
     w = {"protocol": name, "kwargs": show_kwargs(kw), "ncross": ncross, "nparent": nparent, "nmating": nmating, "nprogeny": nprogeny, "ntaxa": n,
          "nobj": nobj, "obj_wt": objwt, "optimiser": optcls, "gmat": {True: "unphased", None: "phased copy", False: "same object as pgmat"}[unphased], "raw_bv": A["raw"], "seed": seed,
-         "ndset": [ndwt, ndname]}
+         "ndset": [ndwt, ndname], "constraints": {"nineqcv": ncons[0], "neqcv": ncons[1]}}
     if c % 173 == 0:
         ctx.sample({"family": "sel", "protocol": name, "optimiser": optcls, "ncross": ncross, "nparent": nparent, "ntaxa": n, "nmarkers": m,
                     "ntrait": t, "nobj": nobj, "kwargs": show_kwargs(kw), "bv_class": bvcls, "gmat": w["gmat"]})
@@ -674,6 +696,16 @@ def case_sel(ctx, c):
         ctx.check("C07.xmap", len(rows) == len(set(rows)) and set(rows) == exp, defsite(cls, "problem"),
                   "cross map enumerates exactly the admissible parent combinations", icls + ("/unique parents" if unique else "/selfing allowed"),
                   witness=dict(w, xmap=xmap, unique_parents=unique), coords=coords)
+        # the decision space must address every row of the cross map (and nothing else)
+        ds = numpy.asarray(soln.decn_space)
+        if enc == "Subset":
+            cover = ds.ndim == 1 and sorted(ds.tolist()) == list(range(len(rows)))
+        else:
+            cover = int(soln.ndecn) == len(rows) and ds.ndim == 2 and ds.shape[1] == len(rows)
+        ctx.check("C07.xmap", cover, defsite(cls, "problem"), "decision space addresses every candidate cross of the map",
+                  icls + ("/unique parents" if unique else "/selfing allowed"),
+                  witness=dict(w, ncandidates=len(rows), ndecn=int(soln.ndecn), decn_space_shape=list(ds.shape),
+                               decn_space_head=ds.ravel()[:8], unique_parents=unique), coords=coords)
     check_config(ctx, cfg, enc, mate, (ncross, nparent, nmating, nprogeny), icls, coords, w, W["pg"], xmap, unique, "select", dsite=ssite)
     # ---- truncation
     if nobj == 1 and enc == "Subset" and kind in ("exact", "sorting"):
@@ -692,7 +724,13 @@ def case_sel(ctx, c):
         best = score.max()
         hits = [i for i in range(len(SD)) if numpy.array_equal(SD[i], decn)]
         tcls = "%s preference, weight %s" % ("library default" if ndname == "library default" else "harness", "> 0" if ndwt > 0 else "< 0")
-        wcls = icls + ("/negative objective weight" if numpy.any(objwt < 0) else "")
+        wcls = icls + ("/negative objective weight" if numpy.any(objwt < 0) else "") + ("/constrained" if sum(ncons) else "")
+        if sum(ncons) and kind in ("front", "list"):
+            nf, npt = algo.info.get("nfeasible", 0), algo.info.get("npoints", 0)
+            ctx.hook("constrained front mixing feasible and infeasible points", int(0 < nf < npt))
+            G_ = numpy.asarray(soln.soln_ineqcv, dtype=float).reshape(len(SD), -1).sum(1) + numpy.asarray(soln.soln_eqcv, dtype=float).reshape(len(SD), -1).sum(1)
+            ctx.sumnote("constrained fronts whose preferred point follows an infeasible one",
+                        int(bool(numpy.any(G_[: int(numpy.argmax(score))] > 0))))
         ctx.sumnote("fronts under mixed-sign objective weights", int(numpy.any(objwt < 0) and numpy.any(objwt > 0)))
         ctx.check("C07.mo", any(score[i] == best for i in hits), ssite, "decision maximises ndset_wt*ndset_trans over the returned front",
                   wcls, witness=dict(w, preference=tcls, front_obj=F, front_decn=SD, score=score, chosen=decn, chosen_index=hits), coords=coords)
@@ -725,13 +763,15 @@ def truncation(ctx, sel, cls, name, fam, mate, A, W, kw, trans, wsign, decn, xma
     elif fam in OWN_CRITERION and mate:
         try:
             prob = sel.problem(pgmat=W["pg"], gmat=W["gm"], ptdf=None, bvmat=W["bv"], gpmod=W["mod"], t_cur=0, t_max=10)
-            s = -numpy.array([float(numpy.sum(prob.evalfn(numpy.array([e]))[0])) for e in numpy.asarray(prob.decn_space).tolist()])
+            # every row of the candidate-cross map is a candidate, whether or not the decision space lists it
+            ids = list(range(len(numpy.asarray(prob.decn_space_xmap))))
+            s = -numpy.array([float(numpy.sum(prob.evalfn(numpy.array([e]))[0])) for e in ids])
         except Exception as e:
             ctx.raised("%s.problem (re-evaluation)" % name, e)
             return
         src = "problem's own evaluation of single crosses"
+        ctx.hook("cross-level truncation with nparent >= 3 and selfing allowed", int(prob.decn_space_xmap.shape[1] >= 3 and not kw.get("unique_parents")))
         chosen = sorted(numpy.asarray(decn).tolist())
-        ids = numpy.asarray(prob.decn_space).tolist()
     else:
         return
     kk = len(chosen)
